@@ -86,7 +86,7 @@ def bisimilar(S1, i1, S2, i2):
     """Coarsest probabilistic bisimulation (partition refinement) on the disjoint union of the
     parts reachable from the two initial states.  Labels: owner, reward, finality; player moves
     compared as sets of (action label, class); chance moves as class distributions (probabilities
-    summed per class, rounded to 1e-9).  Returns (bool, explanation)."""
+    summed per class, rounded to 12 significant digits).  Returns (bool, explanation)."""
     S = {**{("m", k): v for k, v in S1.items()}, **{("e", k): v for k, v in S2.items()}}
     nodes = [("m", k) for k in reachable(S1, i1)] + [("e", k) for k in reachable(S2, i2)]
     cls = {x: ("init", S[x][0], S[x][1], S[x][2]) for x in nodes}
@@ -101,7 +101,8 @@ def bisimilar(S1, i1, S2, i2):
                 for p, t in tr:
                     c = cls[(side, t)]
                     d[c] = d.get(c, 0) + p
-                s = frozenset((c, round(p, 9)) for c, p in d.items())
+                # twelve significant digits (not decimals): 1e-120 and 1e-12 are different probabilities
+                s = frozenset((c, float(f"{p:.12e}")) for c, p in d.items())
             else:
                 s = frozenset((l, cls[(side, t)]) for l, t in tr)
             sig[x] = (cls[x], s)
